@@ -385,6 +385,10 @@ pub mod seal;
 
 mod string_utils;
 
+#[cfg(bc_envelope_verif)]
+#[doc(hidden)]
+pub mod verif_hooks;
+
 #[cfg(feature = "signature")]
 pub use bc_components::{Signer, Verifier};
 
